@@ -104,7 +104,7 @@ def _is_guard(g):
 
 # ------------------------------------------------------------------------------------------------ input specs
 class F:          # float32, distinct non-symmetric values
-    def __init__(self, *shape, pos=False, scale=0.61):
+    def __init__(self, *shape, pos=False, scale=None):
         self.shape, self.pos, self.scale = tuple(shape), pos, scale
 
 
@@ -127,7 +127,8 @@ def _draw(spec, rng, k):
     import numpy as np
     if isinstance(spec, F):
         n = int(np.prod(spec.shape)) if spec.shape else 1
-        v = (rng.permutation(n).astype(np.float64) - (0.0 if spec.pos else n * 0.37)) * spec.scale + (0.17 if spec.pos else 0.11) + 0.05 * k
+        scale = spec.scale or min(0.61, 4.0 / n)          # values stay within about [-1.5, 2.6] whatever the size
+        v = (rng.permutation(n).astype(np.float64) - (0.0 if spec.pos else n * 0.37)) * scale + (0.17 if spec.pos else 0.11) + 0.05 * k
         return v.reshape(spec.shape).astype(np.float32)
     if isinstance(spec, I):
         return rng.integers(spec.lo, spec.hi, spec.shape).astype(np.int32)
@@ -228,16 +229,29 @@ def _build():
     return _REG
 
 
+PRIORITY_PREFIXES = ("scan.", "map.", "associative_scan.", "fori_loop.", "while_loop.", "cond.", "switch.")
+# large neighbourhoods of mostly supported variants: the quick tier takes every second variant
+HALVED_IN_QUICK = ("nn.activations.params", "rev_iota_select.params", "clamp_pow_intops.params", "bitops.dtypes", "linalg.params",
+                   "jnp.var_std.params", "image.resize.params", "jnp.searchsorted.params", "dot_general.variants")
+
+
 def entries(tier):
-    """ordered {name: (group, label, placement)}"""
+    """ordered {name: (group, label, placement)}.
+    quick: every variant at top level; one more placement (rotating fori body / cond branch / jit body) for every variant of
+    the control-flow neighbourhoods and for every 4th variant elsewhere.  thorough: all five placements."""
     reg = _build()
     out = {}
     for gi, (group, sites, vs, place) in enumerate(reg.groups):
+        prio = group.startswith(PRIORITY_PREFIXES)
         for vi, v in enumerate(vs):
             if not place:
                 pls = ("top",)
+                if tier == "quick" and group in HALVED_IN_QUICK and vi % 2 == 1:
+                    continue
             elif tier == "quick":
-                pls = ("top", PLACEMENTS_QUICK_ALT[(gi + vi) % 3])
+                if group in HALVED_IN_QUICK and vi % 2 == 1:
+                    continue
+                pls = ("top", PLACEMENTS_QUICK_ALT[(gi + vi) % 3]) if (prio or (gi + vi) % 6 == 0) else ("top",)
             else:
                 pls = PLACEMENTS_ALL
             for pl in pls:
@@ -262,7 +276,7 @@ def _parse(name):
 
 # ------------------------------------------------------------------------------------------------ one entry
 ORT_SKIP_TOKENS = ("NOT_IMPLEMENTED", "ValidateOpsetForDomain", "is under development", "Could not find an implementation",
-                   "only *guarantees* support", "No Op registered for", "is not a registered function/op")
+                   "only *guarantees* support", "No Op registered for", "is not a registered function/op", "Unsupported pooling size")
 
 
 def _fmt(a):
@@ -339,8 +353,9 @@ def _phase_eager(name, n_draws, seed):
         return st
     refs = []
     try:
+        ref_fn = jax.jit(placed)            # one XLA compilation per entry instead of one per primitive (same semantics)
         for xs in feeds:
-            refs.append([np.asarray(y) for y in placed(*xs)])
+            refs.append([np.asarray(y) for y in ref_fn(*[jax.numpy.asarray(x) for x in xs])])
     except Exception as e:  # noqa
         st["final"] = {"name": name, "status": "jax_invalid", "why": f"{type(e).__name__}: {str(e)[:160]}"}
         return st
@@ -384,7 +399,7 @@ def _phase_export(st, root):
         feed = {}
         for j, (i, x) in enumerate(zip(ins, xs)):
             x = _nchw(x) if j in nchw_in else x
-            feed[i.name] = np.ascontiguousarray(x.astype(tmap[i.type]) if i.type in tmap else x)
+            feed[i.name] = np.array(x, dtype=tmap.get(i.type, x.dtype), order="C", copy=True)
         try:
             got = sess.run(None, feed)
         except Exception as e:  # noqa
@@ -427,7 +442,7 @@ def _work(job):
 
 def run_matrix(names, n_draws, seed, procs=None):
     from multiprocessing import get_context
-    procs = procs or max(2, min(10, (os.cpu_count() or 4) // 2))
+    procs = procs or max(2, min(12, (os.cpu_count() or 4) * 3 // 4))
     procs = min(procs, max(1, len(names)))
     pp = os.environ.get("PYTHONPATH", "")
     if HERE not in pp.split(":"):
@@ -630,3 +645,635 @@ def _progs_a_control(reg):
         ("3 branches", lambda i, x: lax.switch(i, br[:3], x)),
         ("4 branches", lambda i, x: lax.switch(i, br[:4], x)),
     ])
+
+
+# ------------------------------------------------------------------------------------------------ programs: cumulative / sort / top_k / arg
+def _progs_b_order(reg):
+    for op in ("cumsum", "cumprod", "cummax", "cummin", "cumlogsumexp"):
+        vs = []
+        for rev in (0, 1):
+            for ax in (0, 1):
+                vs.append((f"axis={ax},rev={rev}", (lambda op, ax, rev: lambda x: getattr(lax, op)(x * 0.25 if op == "cumprod" else x, axis=ax, reverse=bool(rev)))(op, ax, rev)))
+        vs.append(("rank1,rev=1", (lambda op: lambda x: getattr(lax, op)(x[0] * 0.25, axis=0, reverse=True))(op)))
+        sites = {"cummax": ["lax/_cum_extrema.py::"], "cummin": ["lax/_cum_extrema.py::"]}.get(op, [f"lax/{op}.py::"])
+        reg.add(f"{op}.reverse_axis", sites, [F(3, 4)], vs)
+    reg.add("cum.int", ["lax/_cum_extrema.py::axis_extent"], [I((3, 4), -5, 6)], [
+        ("cumsum,rev=1", lambda x: lax.cumsum(x, axis=1, reverse=True)),
+        ("cummax,rev=1", lambda x: lax.cummax(x, axis=0, reverse=True)),
+        ("cummin,rev=0", lambda x: lax.cummin(x, axis=1)),
+        ("cumprod,rev=1", lambda x: lax.cumprod(x, axis=1, reverse=True)),
+    ])
+    reg.add("jnp.cumsum.params", ["numpy/cumsum.py::", "numpy/cumprod.py::"], [F(3, 4)], [
+        ("axis=None", lambda x: jnp.cumsum(x)),
+        ("axis=-1", lambda x: jnp.cumsum(x, axis=-1)),
+        ("axis=0,dtype=int32", lambda x: jnp.cumsum(x, axis=0, dtype=jnp.int32)),
+        ("flip-cumsum-flip", lambda x: jnp.cumsum(x[:, ::-1], axis=1)[:, ::-1]),
+        ("cumprod axis=None", lambda x: jnp.cumprod(x * 0.25)),
+        ("cumprod axis=0", lambda x: jnp.cumprod(x * 0.25, axis=0)),
+        ("nancumprod", lambda x: jnp.nancumprod(x * 0.25, axis=1)),
+        ("method", lambda x: (x * 0.5).cumsum(axis=1)),
+    ])
+    # ---- lax.sort: dimension, several operands, num_keys (ties in the first key), stability
+    reg.add("sort.dimension", ["lax/sort.py::axis", "lax/sort.py::static axis length"], [F(4, 5)], [
+        (f"dim={d}", (lambda d: lambda x: lax.sort(x, dimension=d))(d)) for d in (0, 1, -1, -2)] + [
+        ("rank3,dim=1", lambda x: lax.sort(jnp.stack([x, -x, x * 0.5], 1), dimension=1)),
+        ("unstable,dim=0", lambda x: lax.sort(x, dimension=0, is_stable=False)),
+    ])
+    reg.add("sort.num_keys", ["lax/sort.py::num_keys", "lax/sort.py::same number of inputs"], [I((8,), 0, 3), I((8,), 0, 3), F(8)], [
+        ("2 operands,keys=1", lambda k1, k2, v: lax.sort((k1, v), num_keys=1)),
+        ("3 operands,keys=1", lambda k1, k2, v: lax.sort((k1, k2, v), num_keys=1)),
+        ("3 operands,keys=2", lambda k1, k2, v: lax.sort((k1, k2, v), num_keys=2)),
+        ("3 operands,keys=3", lambda k1, k2, v: lax.sort((k1, k2, v), num_keys=3)),
+        ("2 operands,keys=2,float second", lambda k1, k2, v: lax.sort((k1, v), num_keys=2)),
+        ("2d,dim=0,keys=1", lambda k1, k2, v: lax.sort((jnp.stack([k1, k2], 1), jnp.stack([v, -v], 1)), dimension=0, num_keys=1)),
+        ("sort_key_val", lambda k1, k2, v: lax.sort_key_val(k1, v)),
+    ])
+    reg.add("top_k.params", ["lax/top_k.py::", "lax/approx_top_k.py::reduction_dimension"], [F(4, 6)], [
+        ("k=1", lambda x: lax.top_k(x, 1)), ("k=3", lambda x: lax.top_k(x, 3)), ("k=6", lambda x: lax.top_k(x, 6)),
+        ("k=2,axis=0", lambda x: lax.top_k(x, 2, axis=0)),
+        ("k=2,axis=-2", lambda x: lax.top_k(x, 2, axis=-2)),
+        ("k=2,unstable", lambda x: lax.top_k(x, 2, is_stable=False)),
+        ("approx_max,k=2", lambda x: lax.approx_max_k(x, 2)),
+        ("approx_min,k=2", lambda x: lax.approx_min_k(x, 2)),
+        ("approx_max,k=2,dim=0", lambda x: lax.approx_max_k(x, 2, reduction_dimension=0)),
+        ("approx_min,k=3,dim=0,noagg", lambda x: lax.approx_min_k(x, 3, reduction_dimension=0, aggregate_to_topk=False)),
+    ])
+    reg.add("top_k.int_ties", ["lax/top_k.py::"], [I((3, 7), 0, 4)], [
+        ("k=3", lambda x: lax.top_k(x, 3)), ("k=3,axis=0", lambda x: lax.top_k(x, 3, axis=0)),
+    ])
+    reg.add("jnp.sort.params", ["numpy/sort.py::kind", "numpy/sort.py::order"], [F(4, 5)], [
+        ("default", lambda x: jnp.sort(x)), ("axis=0", lambda x: jnp.sort(x, axis=0)), ("axis=None", lambda x: jnp.sort(x, axis=None)),
+        ("descending", lambda x: jnp.sort(x, descending=True)), ("descending,axis=0", lambda x: jnp.sort(x, axis=0, descending=True)),
+        ("stable=False", lambda x: jnp.sort(x, stable=False)),
+        ("method", lambda x: x.sort(axis=0)),
+        ("method,descending", lambda x: x.sort(axis=0, descending=True)),
+    ])
+    reg.add("jnp.argsort.params", ["numpy/argsort.py::"], [I((4, 7), 0, 3)], [
+        ("default(ties)", lambda x: jnp.argsort(x)), ("axis=0", lambda x: jnp.argsort(x, axis=0)),
+        ("descending(ties)", lambda x: jnp.argsort(x, descending=True)),
+        ("descending,axis=0", lambda x: jnp.argsort(x, axis=0, descending=True)),
+        ("axis=None", lambda x: jnp.argsort(x, axis=None)),
+        ("stable=False,float", lambda x: jnp.argsort(x.astype(jnp.float32) + jnp.arange(7.0) * 0.01, stable=False)),
+        ("method,descending", lambda x: x.argsort(axis=1, descending=True)),
+    ])
+    reg.add("argmax.params", ["lax/_arg_utils.py::"], [I((3, 6), 0, 3)], [
+        ("lax.argmax axis=1,int32", lambda x: lax.argmax(x, 1, jnp.int32)),
+        ("lax.argmin axis=0,int32", lambda x: lax.argmin(x, 0, jnp.int32)),
+        ("lax.argmax float", lambda x: lax.argmax(x.astype(jnp.float32), 1, jnp.int32)),
+        ("jnp.argmax axis=None", lambda x: jnp.argmax(x)),
+        ("jnp.argmax keepdims", lambda x: jnp.argmax(x, axis=0, keepdims=True)),
+        ("jnp.argmin axis=-1", lambda x: jnp.argmin(x, axis=-1)),
+        ("jnp.argmax bool", lambda x: jnp.argmax(x > 1, axis=1)),
+        ("jnp.nanargmax", lambda x: jnp.nanargmax(jnp.where(x == 2, jnp.nan, x.astype(jnp.float32)), axis=1)),
+    ])
+
+
+# ------------------------------------------------------------------------------------------------ programs: gather / scatter / dynamic slices
+def _progs_c_index(reg):
+    oob = C(np.asarray([-9, -1, 0, 5, 6, 9, 2], np.int32), np.asarray([7, -7, 3, -6, 100, 1, -100], np.int32))
+    inb = C(np.asarray([-6, -1, 0, 5, 3, 2, 2], np.int32), np.asarray([1, -2, 3, -6, 4, 1, 0], np.int32))
+    # ---- gather: mode on both sides of `mode not in allowed_modes`, out-of-bounds indices for clip / fill
+    vs = [("default(promise),in-bounds", lambda x, i: x[i], [F(6, 3), inb]),
+          ("promise_in_bounds,in-bounds", lambda x, i: x.at[i].get(mode="promise_in_bounds"), [F(6, 3), inb])]
+    for mode in ("clip", "fill", "drop"):
+        vs.append((f"{mode},oob", (lambda mode: lambda x, i: x.at[i].get(mode=mode))(mode)))
+    vs += [("fill,fill_value=-7,oob", lambda x, i: x.at[i].get(mode="fill", fill_value=-7.0)),
+           ("fill,int operand,oob", lambda x, i: (x * 10).astype(jnp.int32).at[i].get(mode="fill")),
+           ("fill,int operand,fill_value=3,oob", lambda x, i: (x * 10).astype(jnp.int32).at[i].get(mode="fill", fill_value=3)),
+           ("clip,axis1,oob", lambda x, i: x.T.at[:, i].get(mode="clip")),
+           ("fill,axis1,oob", lambda x, i: x.T.at[:, i].get(mode="fill")),
+           ("clip,2 index arrays,oob", lambda x, i: x.at[i, i % 3].get(mode="clip")),
+           ("fill,2 index arrays,oob", lambda x, i: x.at[i, (i // 2)].get(mode="fill")),
+           ("clip,slice window,oob", lambda x, i: jax.vmap(lambda s: lax.dynamic_slice(x, (s, 0), (2, 3)))(i)),
+           ("unique+sorted flags,in-bounds", lambda x, i: x.at[jnp.sort(i % 6)].get(unique_indices=False, indices_are_sorted=True), [F(6, 3), inb])]
+    reg.add("gather.mode", ["lax/gather.py::allowed_modes", "lax/gather.py::Dynamic gather index vector"], [F(6, 3), oob], vs)
+    vs = []
+    for mode in (None, "clip", "wrap", "fill"):
+        for ax in (0, 1, None):
+            vs.append((f"mode={mode},axis={ax}", (lambda mode, ax: lambda x, i: jnp.take(x, i, axis=ax, mode=mode))(mode, ax)))
+    vs.append(("mode=fill,fill_value=-1,axis=0", lambda x, i: jnp.take(x, i, axis=0, mode="fill", fill_value=-1.0)))
+    vs.append(("method,mode=clip", lambda x, i: x.take(i, axis=0, mode="clip")))
+    vs.append(("2d indices,mode=clip,axis=1", lambda x, i: jnp.take(x, jnp.stack([i[:3], i[3:6]]), axis=1, mode="clip")))
+    reg.add("jnp.take.mode", ["numpy/take.py::mode is not None", "numpy/take.py::axis"], [F(6, 3), oob], vs)
+    vs = []
+    for mode in (None, "clip", "fill", "promise_in_bounds"):
+        idx = C(np.asarray([[0, 2, 1], [2, 2, 0]], np.int32), np.asarray([[1, 0, 0], [2, 1, 2]], np.int32)) if mode == "promise_in_bounds" else \
+            C(np.asarray([[0, 5, -1], [-4, 2, 3]], np.int32), np.asarray([[-3, 7, 0], [2, 1, -9]], np.int32))
+        vs.append((f"mode={mode},axis=1", (lambda mode: lambda x, i: jnp.take_along_axis(x[:2], i, axis=1, mode=mode))(mode), [F(6, 3), idx]))
+        vs.append((f"mode={mode},axis=None", (lambda mode: lambda x, i: jnp.take_along_axis(x, i.reshape(-1), axis=None, mode=mode))(mode), [F(6, 3), idx]))
+    reg.add("take_along_axis.mode", ["numpy/take_along_axis.py::", "lax/gather.py::allowed_modes"], [F(6, 3)], vs)
+
+    # ---- dynamic_slice / dynamic_update_slice: starts inside / beyond the operand (JAX clamps)
+    st = C(np.asarray([2, 1], np.int32), np.asarray([5, 2], np.int32), np.asarray([-3, -1], np.int32), np.asarray([100, -100], np.int32))
+    reg.add("dynamic_slice.start", ["lax/dynamic_slice.py::start indices", "lax/dynamic_update_slice.py::start indices"], [F(6, 3), st, F(2, 2)], [
+        ("slice (2,2)", lambda x, s, u: lax.dynamic_slice(x, (s[0], s[1]), (2, 2))),
+        ("slice full axis1", lambda x, s, u: lax.dynamic_slice(x, (s[0], s[1]), (3, 3))),
+        ("slice_in_dim axis0", lambda x, s, u: lax.dynamic_slice_in_dim(x, s[0], 4, axis=0)),
+        ("index_in_dim keepdims=False", lambda x, s, u: lax.dynamic_index_in_dim(x, s[0], axis=0, keepdims=False)),
+        ("slice start vector", lambda x, s, u: lax.dynamic_slice(x, s, (2, 2))),
+        ("slice mixed static start", lambda x, s, u: lax.dynamic_slice(x, (s[0], 1), (2, 2))),
+        ("update (2,2)", lambda x, s, u: lax.dynamic_update_slice(x, u, (s[0], s[1]))),
+        ("update_in_dim axis1", lambda x, s, u: lax.dynamic_update_slice_in_dim(x, jnp.tile(u, (3, 1)), s[1], axis=1)),
+        ("update index_in_dim", lambda x, s, u: lax.dynamic_update_index_in_dim(x, u[0, 0] * jnp.ones(3), s[0], axis=0)),
+        ("x[s:s+2] via jnp", lambda x, s, u: lax.dynamic_slice(x, (jnp.clip(s[0], 0, 4), 0), (2, 3)) + x[0]),
+    ])
+
+    # ---- scatter: op x mode; duplicates for the commutative ops, unique out-of-bounds indices for set
+    uniq_oob = C(np.asarray([-9, -1, 0, 4, 6, 9, 2], np.int32), np.asarray([7, -7, 3, -6, 100, 1, -100], np.int32))
+    dup_oob = C(np.asarray([-9, -1, 0, 5, 5, 9, 0], np.int32), np.asarray([2, 2, 2, -6, 100, 0, -100], np.int32))
+    uniq_in = C(np.asarray([-6, -1, 1, 4, 3, 2, -4], np.int32)[:5], np.asarray([1, -2, 3, -6, 4, 0, 2], np.int32)[:5])
+    vs = []
+    for mode in (None, "drop", "clip"):
+        vs.append((f"set,mode={mode},oob", (lambda mode: lambda x, i, v: x.at[i].set(v, mode=mode))(mode), [F(6, 3), uniq_oob, F(7, 3)]))
+        for op in ("add", "multiply", "min", "max"):
+            vs.append((f"{op},mode={mode},dup+oob", (lambda mode, op: lambda x, i, v: getattr(x.at[i], op)(v * 0.5, mode=mode))(mode, op), [F(6, 3), dup_oob, F(7, 3)]))
+    vs.append(("set,promise_in_bounds,in-bounds", lambda x, i, v: x.at[i].set(v[:5], mode="promise_in_bounds"), [F(6, 3), uniq_in, F(7, 3)]))
+    vs.append(("set,unique_indices,in-bounds", lambda x, i, v: x.at[i].set(v[:5], unique_indices=True), [F(6, 3), uniq_in, F(7, 3)]))
+    vs.append(("add,sorted flag,in-bounds", lambda x, i, v: x.at[jnp.sort(i % 6)].add(v[:5], indices_are_sorted=True), [F(6, 3), uniq_in, F(7, 3)]))
+    vs.append(("subtract,dup+oob", lambda x, i, v: x.at[i].subtract(v), [F(6, 3), dup_oob, F(7, 3)]))
+    vs.append(("divide,in-bounds", lambda x, i, v: x.at[i].divide(jnp.abs(v[:5]) + 1.0), [F(6, 3), uniq_in, F(7, 3)]))
+    vs.append(("power,in-bounds", lambda x, i, v: jnp.abs(x).at[i].power(2.0), [F(6, 3), uniq_in, F(7, 3)]))
+    vs.append(("apply,in-bounds", lambda x, i, v: x.at[i].apply(jnp.sin), [F(6, 3), uniq_in, F(7, 3)]))
+    reg.add("scatter.op_mode", ["lax/scatter_utils.py::ensure_supported_mode", "lax/scatter_utils.py::unsupported scatter reduction"], [F(6, 3)], vs)
+    reg.add("scatter.patterns", ["lax/scatter_utils.py::_classify_scatter_pattern", "lax/scatter_utils.py::scatter pattern not supported",
+                                  "lax/scatter_utils.py::slice-window scatter", "lax/scatter_utils.py::_compute_window_operand_dims"],
+            [F(6, 4), C(np.asarray([4, 0, 2], np.int32), np.asarray([5, 1, 3], np.int32)), F(3, 4)], [
+        ("rows", lambda x, i, v: x.at[i].set(v)),
+        ("columns (non-prefix axis)", lambda x, i, v: x.at[:, i % 4].set(v.T[:, :3].repeat(2, 0)[:6] * 0 + jnp.arange(18.0).reshape(6, 3))),
+        ("elementwise 2 axes", lambda x, i, v: x.at[i, i % 4].add(v[:, 0])),
+        ("elementwise swapped axes", lambda x, i, v: x.T.at[i % 4, i].set(v[:, 1])),
+        ("row slice window", lambda x, i, v: x.at[i, 1:3].set(v[:, :2])),
+        ("scalar index", lambda x, i, v: x.at[i[0]].set(v[0])),
+        ("scalar index,column", lambda x, i, v: x.at[:, i[0] % 4].add(v[:, 0].repeat(2))),
+        ("scalar idx pair", lambda x, i, v: x.at[i[0], i[1] % 4].set(9.5)),
+        ("rank3 middle axis", lambda x, i, v: jnp.stack([x, -x]).at[:, i].multiply(v * 0.5)),
+        ("rank3 first+last", lambda x, i, v: jnp.stack([x, -x]).at[i % 2, :, i % 4].add(jnp.arange(18.0).reshape(3, 6))),
+        ("negative step slice", lambda x, i, v: x.at[::-2].set(v)),
+        ("lax.scatter 2d indices", lambda x, i, v: lax.scatter(x, jnp.stack([i, i % 4], 1), v[:, 0],
+                                                              lax.ScatterDimensionNumbers((), (0, 1), (0, 1)))),
+        ("lax.scatter_add swapped dims", lambda x, i, v: lax.scatter_add(x, jnp.stack([i % 4, i], 1), v[:, 0],
+                                                                        lax.ScatterDimensionNumbers((), (0, 1), (1, 0)))),
+        ("lax.scatter window on axis0", lambda x, i, v: lax.scatter(x, (i % 4)[:, None], jnp.arange(18.0).reshape(3, 6),
+                                                                   lax.ScatterDimensionNumbers((1,), (1,), (1,)))),
+    ])
+    reg.add("gather.vmapped(batching dims)", ["lax/gather.py::"], [F(3, 6), C(np.asarray([5, 0, 2], np.int32), np.asarray([1, 1, 4], np.int32))], [
+        ("vmap x[i]", lambda xs, i: jax.vmap(lambda x, j: x[j])(xs, i)),
+        ("vmap dynamic_slice", lambda xs, i: jax.vmap(lambda x, j: lax.dynamic_slice(x, (j,), (2,)))(xs, i)),
+        ("vmap x.at[i].set", lambda xs, i: jax.vmap(lambda x, j: x.at[j].set(0.5))(xs, i)),
+        ("vmap x.at[i].add", lambda xs, i: jax.vmap(lambda x, j: x.at[j].add(2.0))(xs, i)),
+        ("vmap dynamic_update_slice", lambda xs, i: jax.vmap(lambda x, j: lax.dynamic_update_slice(x, jnp.ones(2), (j,)))(xs, i)),
+        ("vmap take_along", lambda xs, i: jax.vmap(lambda x, j: jnp.take(x, jnp.stack([j, 5 - j]), axis=0))(xs, i)),
+    ])
+
+
+# ------------------------------------------------------------------------------------------------ programs: windows / conv / pad / dot / reshape / reduce
+def _progs_d_windows(reg):
+    ninf, pinf = -np.inf, np.inf
+    rw = lax.reduce_window
+    vs = []
+    for opn, op, ident, other in (("add", lax.add, 0.0, 1.5), ("max", lax.max, ninf, 0.0), ("min", lax.min, pinf, 0.0), ("mul", lax.mul, 1.0, 2.0)):
+        vs.append((f"{opn},identity init,VALID", (lambda op, ident: lambda x: rw(x * 0.5, ident, op, (2, 2), (1, 1), "VALID"))(op, ident)))
+        vs.append((f"{opn},init={other}", (lambda op, other: lambda x: rw(x * 0.5, other, op, (2, 2), (1, 1), "VALID"))(op, other)))
+        vs.append((f"{opn},SAME,stride(2,1)", (lambda op, ident: lambda x: rw(x * 0.5, ident, op, (3, 2), (2, 1), "SAME"))(op, ident)))
+        vs.append((f"{opn},explicit pad", (lambda op, ident: lambda x: rw(x * 0.5, ident, op, (2, 3), (1, 1), ((1, 0), (0, 2))))(op, ident)))
+        vs.append((f"{opn},window_dilation(2,1)", (lambda op, ident: lambda x: rw(x * 0.5, ident, op, (2, 2), (1, 1), "VALID", window_dilation=(2, 1)))(op, ident)))
+        vs.append((f"{opn},base_dilation(2,1)", (lambda op, ident: lambda x: rw(x * 0.5, ident, op, (2, 2), (1, 1), "VALID", base_dilation=(2, 1)))(op, ident)))
+        vs.append((f"{opn},base_dilation+pad", (lambda op, ident: lambda x: rw(x * 0.5, ident, op, (2, 3), (1, 2), ((1, 1), (0, 1)), base_dilation=(1, 2)))(op, ident)))
+    vs.append(("custom a+2b", lambda x: rw(x, 0.0, lambda a, b: a + 2.0 * b, (2, 2), (1, 1), "VALID")))
+    vs.append(("max,traced init", lambda x: rw(x, x[0, 0], lax.max, (2, 2), (1, 1), "VALID")))
+    vs.append(("add,traced init", lambda x: rw(x, x[0, 0], lax.add, (2, 2), (1, 1), "VALID")))
+    vs.append(("pair of operands", lambda x: rw((x, -x), (ninf, ninf), lambda a, b: (lax.max(a[0], b[0]), lax.max(a[1], b[1])), (2, 2), (1, 1), "VALID")))
+    reg.add("reduce_window.variants", ["lax/reduce_window.py::", "lax/reduce_window_max.py::base_dilation", "lax/reduce_window_sum.py::"], [F(5, 6)], vs)
+    reg.add("reduce_window.int", ["lax/reduce_window.py::_MAXPOOL_DTYPES", "lax/reduce_window_max.py::_MAXPOOL_DTYPES"], [I((5, 6), -9, 9)], [
+        ("max", lambda x: rw(x, np.int32(np.iinfo(np.int32).min), lax.max, (2, 2), (1, 1), "VALID")),
+        ("min", lambda x: rw(x, np.int32(np.iinfo(np.int32).max), lax.min, (2, 2), (1, 1), "VALID")),
+        ("add", lambda x: rw(x, np.int32(0), lax.add, (2, 2), (1, 1), "SAME")),
+        ("add,init=3", lambda x: rw(x, np.int32(3), lax.add, (2, 2), (1, 1), "VALID")),
+    ])
+    reg.add("reduce_window.rank4", ["lax/reduce_window_sum.py::base_dilation"], [F(1, 5, 6, 2)], [
+        ("max pool NHWC", lambda x: rw(x, ninf, lax.max, (1, 2, 2, 1), (1, 2, 2, 1), "VALID")),
+        ("avg pool SAME", lambda x: rw(x, 0.0, lax.add, (1, 3, 3, 1), (1, 1, 1, 1), "SAME") / 9.0),
+        ("max pool,window on channel", lambda x: rw(x, ninf, lax.max, (1, 2, 1, 2), (1, 1, 1, 1), "VALID")),
+        ("sum,window on batch+channel", lambda x: rw(jnp.concatenate([x, x * 2.0]), 0.0, lax.add, (2, 1, 2, 2), (1, 1, 1, 1), "VALID")),
+        ("min,padding negative", lambda x: rw(x, pinf, lax.min, (1, 2, 2, 1), (1, 1, 1, 1), ((0, 0), (-1, 0), (0, -1), (0, 0)))),
+        ("sum,padding negative", lambda x: rw(x, 0.0, lax.add, (1, 2, 2, 1), (1, 1, 1, 1), ((0, 0), (-1, 0), (0, -1), (0, 0)))),
+    ])
+
+    # ---- conv_general_dilated
+    cv = lax.conv_general_dilated
+    vs = []
+    for pad in ("VALID", "SAME", "SAME_LOWER", ((1, 2), (0, 1)), ((-1, 0), (0, -1)), ((2, -1), (-1, 2))):
+        vs.append((f"pad={pad}", (lambda pad: lambda x, w: cv(x, w, (1, 1), pad))(pad)))
+    vs += [("stride(2,1)", lambda x, w: cv(x, w, (2, 1), "VALID")),
+           ("stride(2,2),SAME", lambda x, w: cv(x, w, (2, 2), "SAME")),
+           ("rhs_dilation(2,1)", lambda x, w: cv(x, w, (1, 1), "VALID", rhs_dilation=(2, 1))),
+           ("rhs_dilation(1,2),SAME", lambda x, w: cv(x, w, (1, 1), "SAME", rhs_dilation=(1, 2))),
+           ("lhs_dilation(2,1)", lambda x, w: cv(x, w, (1, 1), ((0, 0), (0, 0)), lhs_dilation=(2, 1))),
+           ("lhs_dilation(2,2),pad", lambda x, w: cv(x, w, (1, 1), ((2, 1), (1, 2)), lhs_dilation=(2, 2))),
+           ("lhs_dilation(2,1),stride(1,2)", lambda x, w: cv(x, w, (1, 2), ((1, 1), (0, 0)), lhs_dilation=(2, 1))),
+           ("lhs+rhs dilation", lambda x, w: cv(x, w, (1, 1), ((2, 2), (1, 1)), lhs_dilation=(2, 1), rhs_dilation=(1, 2))),
+           ("feature_group_count=2", lambda x, w: cv(x, w[:, :2], (1, 1), "VALID", feature_group_count=2)),
+           ("feature_group_count=4(depthwise)", lambda x, w: cv(x, w[:, :1], (1, 1), "SAME", feature_group_count=4)),
+           ("batch_group_count=2", lambda x, w: cv(x, w, (1, 1), "VALID", batch_group_count=2)),
+           ("precision=HIGHEST", lambda x, w: cv(x, w, (1, 1), "VALID", precision=lax.Precision.HIGHEST)),
+           ("preferred=float32", lambda x, w: cv(x, w, (1, 1), "VALID", preferred_element_type=jnp.float32)),
+           ("NHWC/HWIO", lambda x, w: cv(x.transpose(0, 2, 3, 1), w.transpose(2, 3, 1, 0), (1, 1), "VALID", dimension_numbers=("NHWC", "HWIO", "NHWC"))),
+           ("NHWC/OIHW->NCHW", lambda x, w: cv(x.transpose(0, 2, 3, 1), w, (1, 1), "VALID", dimension_numbers=("NHWC", "OIHW", "NCHW"))),
+           ("NCHW/HWIO->NHWC,stride", lambda x, w: cv(x, w.transpose(2, 3, 1, 0), (2, 1), "SAME", dimension_numbers=("NCHW", "HWIO", "NHWC"))),
+           ("CNHW/IOHW->NCHW", lambda x, w: cv(x.transpose(1, 0, 2, 3), w.transpose(1, 0, 2, 3), (1, 1), "VALID", dimension_numbers=("CNHW", "IOHW", "NCHW"))),
+           ("NCWH (spatial swapped)", lambda x, w: cv(x, w, (1, 2), "VALID", dimension_numbers=("NCWH", "OIHW", "NCHW"))),
+           ("NHWC/HWIO,groups=2", lambda x, w: cv(x.transpose(0, 2, 3, 1), w[:, :2].transpose(2, 3, 1, 0), (1, 1), "SAME", dimension_numbers=("NHWC", "HWIO", "NHWC"), feature_group_count=2)),
+           ("conv_transpose", lambda x, w: lax.conv_transpose(x, w.transpose(2, 3, 1, 0), (2, 2), "SAME", dimension_numbers=("NCHW", "HWIO", "NCHW"))),
+           ("conv_transpose,VALID,transpose_kernel", lambda x, w: lax.conv_transpose(x, w.transpose(2, 3, 0, 1), (2, 1), "VALID", dimension_numbers=("NCHW", "HWIO", "NCHW"), transpose_kernel=True)),
+           ("conv 1d", lambda x, w: cv(x[:, :, :, 0], w[:, :, :, 0], (1,), "SAME")),
+           ("conv 1d,NWC", lambda x, w: cv(x[:, :, :, 0].transpose(0, 2, 1), w[:, :, :, 0].transpose(2, 1, 0), (2,), ((1, 0),), dimension_numbers=("NWC", "WIO", "NWC"))),
+           ("conv 3d", lambda x, w: cv(x[:, :, :, :, None] * jnp.arange(1.0, 4.0), w[:, :, :, :, None] * jnp.arange(1.0, 3.0), (1, 1, 1), "VALID")),
+           ("int32 operands", lambda x, w: cv((x * 3).astype(jnp.int32), (w * 3).astype(jnp.int32), (1, 1), "VALID")),
+           ]
+    reg.add("conv.variants", ["lax/conv.py::"], [F(2, 4, 6, 5), F(4, 4, 3, 2)], vs)
+
+    # ---- lax.pad
+    vs = []
+    for cfg in (((1, 2, 0), (0, 1, 0)), ((-1, 0, 0), (0, -2, 0)), ((-1, 2, 0), (1, -1, 0)), ((0, 0, 1), (0, 0, 0)), ((1, 1, 2), (0, 2, 1)),
+                ((-1, 0, 1), (0, 0, 0)), ((0, 0, 0), (0, 0, 0)), ((-2, -2, 0), (0, 0, 0))):
+        vs.append((f"cfg={cfg}", (lambda cfg: lambda x, v: lax.pad(x, v, cfg))(cfg)))
+    vs += [("jnp.pad constant", lambda x, v: jnp.pad(x, ((1, 2), (0, 1)), constant_values=3.0)),
+           ("jnp.pad edge", lambda x, v: jnp.pad(x, ((1, 2), (2, 1)), mode="edge")),
+           ("jnp.pad reflect", lambda x, v: jnp.pad(x, ((1, 2), (2, 1)), mode="reflect")),
+           ("jnp.pad symmetric", lambda x, v: jnp.pad(x, ((1, 2), (2, 1)), mode="symmetric")),
+           ("jnp.pad wrap", lambda x, v: jnp.pad(x, ((1, 2), (2, 1)), mode="wrap")),
+           ("jnp.pad per-side constants", lambda x, v: jnp.pad(x, ((1, 2), (0, 1)), constant_values=((1.0, 2.0), (3.0, 4.0)))),
+           ("int operand", lambda x, v: lax.pad((x * 2).astype(jnp.int32), jnp.int32(7), ((1, 0, 0), (-1, 1, 0))))]
+    reg.add("pad.config", ["lax/pad.py::interior", "lax/pad.py::padding_config"], [F(4, 5), C(np.float32(-3.5), np.float32(8.25))], vs)
+
+    # ---- dot_general
+    dg = lax.dot_general
+    reg.add("dot_general.variants", ["lax/dot_general.py::"], [F(3, 2, 4), F(3, 4, 5)], [
+        ("batch0,contract", lambda a, b: dg(a, b, (((2,), (1,)), ((0,), (0,))))),
+        ("batch not leading in rhs", lambda a, b: dg(a, b.transpose(1, 0, 2), (((2,), (0,)), ((0,), (1,))))),
+        ("batch not leading in lhs", lambda a, b: dg(a.transpose(1, 0, 2), b, (((2,), (1,)), ((1,), (0,))))),
+        ("no batch,contract", lambda a, b: dg(a, b, (((2,), (1,)), ((), ())))),
+        ("two contracting dims", lambda a, b: dg(a, b[:, :, :2].transpose(0, 2, 1), (((0, 2), (0, 2)), ((), ())))),
+        ("contract order swapped", lambda a, b: dg(a, b[:, :, :2].transpose(0, 2, 1), (((2, 0), (2, 0)), ((), ())))),
+        ("outer product", lambda a, b: dg(a[0], b[0], (((), ()), ((), ())))),
+        ("vector-vector", lambda a, b: dg(a[0, 0], b[0, :, 0], (((0,), (0,)), ((), ())))),
+        ("matrix-vector", lambda a, b: dg(a[0], b[0, :, 0], (((1,), (0,)), ((), ())))),
+        ("two batch dims", lambda a, b: dg(a[:, :, None, :] * jnp.ones((1, 1, 5, 1)), b[:, None, :, :].transpose(0, 1, 3, 2) * jnp.ones((1, 2, 1, 1)), (((3,), (3,)), ((0, 1), (0, 1))))),
+        ("batch dims order swapped", lambda a, b: dg(a[:, :, None, :] * jnp.ones((1, 1, 5, 1)), b[:, None, :, :].transpose(1, 0, 3, 2) * jnp.ones((2, 1, 1, 1)), (((3,), (3,)), ((1, 0), (0, 1))))),
+        ("precision=HIGHEST", lambda a, b: dg(a, b, (((2,), (1,)), ((0,), (0,))), precision=lax.Precision.HIGHEST)),
+        ("precision pair", lambda a, b: dg(a, b, (((2,), (1,)), ((0,), (0,))), precision=(lax.Precision.HIGH, lax.Precision.DEFAULT))),
+        ("preferred=float32", lambda a, b: dg(a, b, (((2,), (1,)), ((0,), (0,))), preferred_element_type=jnp.float32)),
+        ("int32,preferred=float32", lambda a, b: dg((a * 9).astype(jnp.int32), (b * 9).astype(jnp.int32), (((2,), (1,)), ((0,), (0,))), preferred_element_type=jnp.float32)),
+        ("int32,preferred=int32", lambda a, b: dg((a * 9).astype(jnp.int32), (b * 9).astype(jnp.int32), (((2,), (1,)), ((0,), (0,))), preferred_element_type=jnp.int32)),
+        ("int32 plain", lambda a, b: dg((a * 9).astype(jnp.int32), (b * 9).astype(jnp.int32), (((2,), (1,)), ((0,), (0,))))),
+        ("mixed f32 x int32", lambda a, b: jnp.matmul(a, (b * 9).astype(jnp.int32))),
+        ("bool operands", lambda a, b: dg(a > 0, b > 0, (((2,), (1,)), ((0,), (0,))))),
+        ("jnp.matmul preferred", lambda a, b: jnp.matmul(a, b, preferred_element_type=jnp.float32)),
+        ("einsum transposed out", lambda a, b: jnp.einsum("bij,bjk->kbi", a, b)),
+        ("einsum trace-like", lambda a, b: jnp.einsum("bij,bjk->b", a, b)),
+        ("einsum repeated idx", lambda a, b: jnp.einsum("iij->ij", b[:, :3, :])),
+        ("einsum precision", lambda a, b: jnp.einsum("bij,bjk->bik", a, b, precision=lax.Precision.HIGHEST)),
+        ("einsum preferred", lambda a, b: jnp.einsum("bij,bjk->bik", a, b, preferred_element_type=jnp.float32)),
+        ("tensordot axes=2", lambda a, b: jnp.tensordot(a[0], b[:2, :, :], axes=2)),
+        ("tensordot axes lists", lambda a, b: jnp.tensordot(a, b, axes=((0, 2), (0, 1)))),
+    ])
+
+    # ---- reshape with dimensions= / order=
+    reg.add("reshape.dimensions", ["numpy/reshape.py::dimensions_tuple", "numpy/reshape.py::order", "lax/reshape.py::"], [F(2, 3, 4)], [
+        ("lax,dimensions=None", lambda x: lax.reshape(x, (6, 4))),
+        ("lax,dimensions=identity", lambda x: lax.reshape(x, (6, 4), dimensions=(0, 1, 2))),
+        ("lax,dimensions=(1,0,2)", lambda x: lax.reshape(x, (6, 4), dimensions=(1, 0, 2))),
+        ("lax,dimensions=(2,0,1)", lambda x: lax.reshape(x, (4, 6), dimensions=(2, 0, 1))),
+        ("lax,dimensions=(2,1,0)", lambda x: lax.reshape(x, (24,), dimensions=(2, 1, 0))),
+        ("jnp,order=C", lambda x: jnp.reshape(x, (6, 4), order="C")),
+        ("jnp,order=F", lambda x: jnp.reshape(x, (6, 4), order="F")),
+        ("method,order=F", lambda x: x.reshape((4, 6), order="F")),
+        ("ravel,order=F", lambda x: jnp.ravel(x, order="F")),
+        ("flatten,order=F", lambda x: x.flatten(order="F")),
+        ("ravel,order=C", lambda x: jnp.ravel(x)),
+        ("jnp,-1", lambda x: jnp.reshape(x, (-1, 2))),
+        ("jnp,copy kw", lambda x: jnp.reshape(x, (3, 8), copy=True)),
+    ])
+
+    # ---- lax.reduce with a computation
+    rd = lax.reduce
+    reg.add("reduce.computation", ["lax/reduce.py::"], [F(3, 4)], [
+        ("add,init=0", lambda x: rd(x, 0.0, lax.add, (1,))),
+        ("add,init=1.5", lambda x: rd(x, 1.5, lax.add, (1,))),
+        ("mul,init=1", lambda x: rd(x * 0.5, 1.0, lax.mul, (0,))),
+        ("mul,init=2", lambda x: rd(x * 0.5, 2.0, lax.mul, (0,))),
+        ("max,init=-inf", lambda x: rd(x, -np.inf, lax.max, (0, 1))),
+        ("max,init=0", lambda x: rd(x, 0.0, lax.max, (1,))),
+        ("min,init=0", lambda x: rd(x, 0.0, lax.min, (1,))),
+        ("sub (non-commutative)", lambda x: rd(x, 0.0, lax.sub, (1,))),
+        ("custom a+2b", lambda x: rd(x, 0.0, lambda a, b: a + 2.0 * b, (1,))),
+        ("custom max(|a|,|b|)", lambda x: rd(x, 0.0, lambda a, b: lax.max(lax.abs(a), lax.abs(b)), (1,))),
+        ("traced init", lambda x: rd(x, x[0, 0], lax.add, (1,))),
+        ("variadic argmax", lambda x: rd((x, lax.broadcasted_iota(jnp.int32, x.shape, 1)), (-np.inf, np.int32(0)),
+                                       lambda a, b: (lax.select(a[0] >= b[0], a[0], b[0]), lax.select(a[0] >= b[0], a[1], b[1])), (1,))),
+        ("no dimensions", lambda x: rd(x, 0.0, lax.add, ())),
+    ])
+    reg.add("reduce.bitwise", ["lax/_reduce_utils.py::integer bitwise", "lax/reduce.py::"], [I((3, 4), 0, 16)], [
+        ("and int", lambda x: rd(x, np.int32(-1), lax.bitwise_and, (1,))),
+        ("or int", lambda x: rd(x, np.int32(0), lax.bitwise_or, (1,))),
+        ("xor int", lambda x: rd(x, np.int32(0), lax.bitwise_xor, (0,))),
+        ("and bool", lambda x: rd(x > 3, True, lax.bitwise_and, (1,))),
+        ("or bool", lambda x: rd(x > 12, False, lax.bitwise_or, (1,))),
+        ("xor bool", lambda x: rd(x > 7, False, lax.bitwise_xor, (1,))),
+        ("add int,init=0", lambda x: rd(x, np.int32(0), lax.add, (1,))),
+        ("max int,init=5", lambda x: rd(x, np.int32(5), lax.max, (1,))),
+        ("jnp.bitwise_and.reduce", lambda x: jnp.bitwise_and.reduce(x, axis=1)),
+    ])
+
+
+# ------------------------------------------------------------------------------------------------ programs: jnp / nn parameter guards
+def _progs_e_numpy(reg):
+    m = B(3, 4)
+    for fn in ("sum", "prod", "max", "min", "mean", "amax", "amin"):
+        f = getattr(jnp, fn)
+        init = {"sum": 2.5, "prod": 2.0, "max": 0.5, "min": 0.5, "amax": 0.5, "amin": 0.5}.get(fn)
+        vs = [("axis=1", (lambda f: lambda x, w: f(x, axis=1))(f)),
+              ("axis=None,keepdims", (lambda f: lambda x, w: f(x, keepdims=True))(f)),
+              ("axis=(0,1)", (lambda f: lambda x, w: f(x, axis=(0, 1)))(f)),
+              ("axis=-2", (lambda f: lambda x, w: f(x, axis=-2))(f)),
+              ("method,axis=0", (lambda fn: lambda x, w: getattr(x, {"amax": "max", "amin": "min"}.get(fn, fn))(axis=0))(fn))]
+        if fn in ("sum", "prod", "mean"):
+            vs.append(("where,axis=1", (lambda f: lambda x, w: f(x, axis=1, where=w))(f)))
+            vs.append(("method,where", (lambda fn: lambda x, w: getattr(x, fn)(axis=1, where=w))(fn)))
+            vs.append(("dtype=int32", (lambda f: lambda x, w: f(x, axis=1, dtype=jnp.int32))(f)))
+        if init is not None:
+            vs.append(("initial,axis=1", (lambda f, init: lambda x, w: f(x, axis=1, initial=init))(f, init)))
+            vs.append(("initial+where,axis=1", (lambda f, init: lambda x, w: f(x, axis=1, initial=init, where=w))(f, init)))
+            vs.append(("method,initial", (lambda fn, init: lambda x, w: getattr(x, {"amax": "max", "amin": "min"}.get(fn, fn))(axis=1, initial=init))(fn, init)))
+        if fn == "mean":
+            vs.append(("where=True", lambda x, w: jnp.mean(x, axis=1, where=True)))
+        reg.add(f"jnp.{fn}.where_initial", [f"numpy/{fn}.py::where", f"numpy/{fn}.py::initial", f"numpy/{fn}.py::out is not None"], [F(3, 4), m], vs)
+    reg.add("jnp.all_any.where", ["numpy/all.py::where", "numpy/any.py::where"], [F(3, 4), m], [
+        ("all,axis=1", lambda x, w: jnp.all(x > 0, axis=1)), ("any,axis=0", lambda x, w: jnp.any(x > 0, axis=0)),
+        ("all,where", lambda x, w: jnp.all(x > 0, axis=1, where=w)), ("any,where", lambda x, w: jnp.any(x > 0, axis=1, where=w)),
+        ("all,float operand", lambda x, w: jnp.all(x, axis=1)), ("any,keepdims", lambda x, w: jnp.any(x > 1, keepdims=True)),
+        ("method all,where", lambda x, w: (x > 0).all(axis=1, where=w)),
+    ])
+    reg.add("jnp.var_std.params", [], [F(3, 4), m], [
+        ("var,ddof=1", lambda x, w: jnp.var(x, axis=1, ddof=1)), ("std,where", lambda x, w: jnp.std(x, axis=1, where=w | (jnp.arange(4) < 2))),
+        ("var,correction", lambda x, w: jnp.var(x, axis=0, correction=1)), ("median", lambda x, w: jnp.median(x, axis=1)),
+        ("average weights", lambda x, w: jnp.average(x, axis=1, weights=jnp.arange(1.0, 5.0))),
+        ("ptp", lambda x, w: jnp.ptp(x, axis=1)), ("nanmax", lambda x, w: jnp.nanmax(jnp.where(w, jnp.nan, x), axis=0)),
+        ("nansum", lambda x, w: jnp.nansum(jnp.where(w, jnp.nan, x), axis=1)),
+    ])
+    reg.add("jnp.linspace.params", ["numpy/linspace.py::retstep", "numpy/linspace.py::axis != 0", "numpy/linspace.py::scalar start/stop"],
+            [C(np.float32(-1.5), np.float32(2.0)), C(np.float32(4.0), np.float32(-3.0))], [
+        ("static,num=5", lambda a, b: jnp.linspace(0.5, 3.0, 5) + a),
+        ("static,endpoint=False", lambda a, b: jnp.linspace(0.5, 3.0, 5, endpoint=False) + a),
+        ("static,num=1", lambda a, b: jnp.linspace(0.5, 3.0, 1) + a),
+        ("static,dtype=int32", lambda a, b: jnp.linspace(0, 10, 4, dtype=jnp.int32) + a.astype(jnp.int32)),
+        ("static,retstep", lambda a, b: jnp.linspace(0.5, 3.0, 5, retstep=True)[0] + a),
+        ("traced,num=5", lambda a, b: jnp.linspace(a, b, 5)),
+        ("traced,endpoint=False", lambda a, b: jnp.linspace(a, b, 4, endpoint=False)),
+        ("traced,retstep", lambda a, b: jnp.linspace(a, b, 5, retstep=True)),
+        ("traced arrays,axis=0", lambda a, b: jnp.linspace(jnp.stack([a, b]), jnp.stack([b, a * 2.0]), 4)),
+        ("traced arrays,axis=1", lambda a, b: jnp.linspace(jnp.stack([a, b]), jnp.stack([b, a * 2.0]), 4, axis=1)),
+        ("traced arrays,axis=-1", lambda a, b: jnp.linspace(jnp.stack([a, b]), jnp.stack([b, a * 2.0]), 3, axis=-1)),
+        ("logspace", lambda a, b: jnp.logspace(0.0, 2.0, 4) * a),
+        ("arange static", lambda a, b: jnp.arange(1.0, 4.0, 0.5) * a),
+    ])
+    reg.add("jnp.diag.k", ["numpy/diag.py::k != 0", "numpy/diag.py::rank", "numpy/diagonal.py::axis1", "numpy/diagonal.py::rank != 2"], [F(4, 5)], [
+        ("diag vec,k=0", lambda x: jnp.diag(x[0])), ("diag vec,k=1", lambda x: jnp.diag(x[0], k=1)), ("diag vec,k=-2", lambda x: jnp.diag(x[0], k=-2)),
+        ("diag mat,k=0", lambda x: jnp.diag(x)), ("diag mat,k=1", lambda x: jnp.diag(x, k=1)), ("diag mat,k=-1", lambda x: jnp.diag(x, k=-1)),
+        ("diagonal", lambda x: jnp.diagonal(x)), ("diagonal offset=1", lambda x: jnp.diagonal(x, offset=1)), ("diagonal offset=-2", lambda x: jnp.diagonal(x, offset=-2)),
+        ("diagonal axes swapped", lambda x: jnp.diagonal(x, offset=1, axis1=1, axis2=0)),
+        ("diagonal rank3", lambda x: jnp.diagonal(jnp.stack([x, -x]), axis1=1, axis2=2)),
+        ("diagonal rank3,axes(0,2)", lambda x: jnp.diagonal(jnp.stack([x, -x]), offset=1, axis1=0, axis2=2)),
+        ("method diagonal offset=1", lambda x: x.diagonal(1)),
+        ("trace offset=1", lambda x: jnp.trace(x, offset=1)),
+        ("tril k=-1", lambda x: jnp.tril(x, k=-1)), ("triu k=1", lambda x: jnp.triu(x, k=1)),
+        ("eye k=1 * x", lambda x: jnp.eye(4, 5, k=1) * x),
+    ])
+    reg.add("jnp.where.arity", ["numpy/where.py::fewer than three"], [F(3, 4), m], [
+        ("3 args", lambda x, w: jnp.where(w, x, -x)), ("3 args,scalar branches", lambda x, w: jnp.where(w, 1.0, x)),
+        ("3 args,broadcast cond", lambda x, w: jnp.where(w[0], x, 0.0)), ("3 args,int/float mix", lambda x, w: jnp.where(w, x, 2)),
+        ("1 arg,size=4", lambda x, w: jnp.where(w, size=4, fill_value=-1)),
+        ("1 arg,size=4,float cond", lambda x, w: jnp.where(x > 0.3, size=4, fill_value=0)),
+        ("nonzero size", lambda x, w: jnp.nonzero(w[0], size=3, fill_value=9)),
+        ("argwhere size", lambda x, w: jnp.argwhere(w, size=5, fill_value=-2)),
+        ("flatnonzero size", lambda x, w: jnp.flatnonzero(w, size=5, fill_value=-2)),
+        ("select", lambda x, w: jnp.select([w, x > 0], [x, -x], default=7.0)),
+        ("method where-like clip", lambda x, w: jnp.clip(x, 0.5, -0.5)),
+    ])
+    reg.add("jnp.unique.params", ["numpy/unique.py::"], [I((9,), 0, 4)], [
+        ("size=5,fill=-1", lambda x: jnp.unique(x, size=5, fill_value=-1)),
+        ("size=2(truncates)", lambda x: jnp.unique(x, size=2, fill_value=-1)),
+        ("size=5,no fill", lambda x: jnp.unique(x, size=5)),
+        ("return_counts", lambda x: jnp.unique(x, size=5, fill_value=-1, return_counts=True)),
+        ("return_index", lambda x: jnp.unique(x, size=5, fill_value=-1, return_index=True)),
+        ("return_inverse", lambda x: jnp.unique(x, size=5, fill_value=-1, return_inverse=True)),
+        ("float", lambda x: jnp.unique(x.astype(jnp.float32) * 0.5, size=5, fill_value=9.5)),
+        ("2d,axis=0", lambda x: jnp.unique(x.reshape(3, 3) // 2, size=3, fill_value=0, axis=0)),
+        ("unique_values", lambda x: jnp.unique_values(x, size=5, fill_value=-1)),
+    ])
+    xp = C(np.asarray([-1.0, 0.0, 0.5, 2.0, 3.5], np.float32))
+    reg.add("jnp.interp.params", ["numpy/interp.py::left is not None", "numpy/interp.py::period"], [C(np.asarray([-2.0, -1.0, 0.25, 1.0, 3.5, 4.0, 0.5], np.float32), np.asarray([9.0, 2.1, 0.0, -0.5, 3.4, -7.0, 1.1], np.float32)), xp, F(5)], [
+        ("plain", lambda x, a, f: jnp.interp(x, a, f)), ("left", lambda x, a, f: jnp.interp(x, a, f, left=-9.0)), ("right", lambda x, a, f: jnp.interp(x, a, f, right=9.0)),
+        ("left=extrapolate", lambda x, a, f: jnp.interp(x, a, f, left="extrapolate", right="extrapolate")),
+        ("period", lambda x, a, f: jnp.interp(x, a, f, period=4.0)),
+        ("scalar x", lambda x, a, f: jnp.interp(x[2], a, f)),
+    ])
+    reg.add("jnp.searchsorted.params", ["numpy/searchsorted.py::sorter"], [C(np.asarray([-2.0, -1.0, 0.5, 0.5, 3.5, 4.0, 2.0], np.float32), np.asarray([0.0, 2.0, 2.0, -1.0, 3.5, 9.0, -9.0], np.float32)), xp], [
+        ("left", lambda v, a: jnp.searchsorted(a, v)), ("right", lambda v, a: jnp.searchsorted(a, v, side="right")),
+        ("sorter", lambda v, a: jnp.searchsorted(a[::-1], v, sorter=jnp.arange(4, -1, -1))),
+        ("method=sort", lambda v, a: jnp.searchsorted(a, v, method="sort")),
+        ("method=compare_all,right", lambda v, a: jnp.searchsorted(a, v, side="right", method="compare_all")),
+        ("method=scan_unrolled", lambda v, a: jnp.searchsorted(a, v, method="scan_unrolled")),
+        ("ties in a", lambda v, a: jnp.searchsorted(jnp.asarray([0.0, 2.0, 2.0, 2.0, 3.5]), v, side="right")),
+        ("digitize", lambda v, a: jnp.digitize(v, a)), ("digitize right", lambda v, a: jnp.digitize(v, a, right=True)),
+        ("digitize decreasing", lambda v, a: jnp.digitize(v, a[::-1])),
+        ("histogram", lambda v, a: jnp.histogram(v, bins=a)[0]),
+        ("histogram density", lambda v, a: jnp.histogram(v, bins=a, density=True)[0]),
+        ("histogram weights", lambda v, a: jnp.histogram(v, bins=a, weights=v * 2.0)[0]),
+        ("histogram int bins+range", lambda v, a: jnp.histogram(v, bins=4, range=(-2.0, 4.0))[0]),
+        ("bincount", lambda v, a: jnp.bincount(jnp.abs(v).astype(jnp.int32), length=6)),
+        ("bincount weights,minlength", lambda v, a: jnp.bincount(jnp.abs(v).astype(jnp.int32), weights=v, length=6)),
+    ])
+    # ---- jax.nn parameter guards
+    reg.add("nn.softmax.axis", ["nn/softmax.py::single axis", "nn/log_softmax.py::single axis", "nn/softmax.py::where"], [F(3, 4), m], [
+        ("softmax axis=-1", lambda x, w: jax.nn.softmax(x)), ("softmax axis=0", lambda x, w: jax.nn.softmax(x, axis=0)),
+        ("softmax axis=(1,)", lambda x, w: jax.nn.softmax(x, axis=(1,))), ("softmax axis=(0,1)", lambda x, w: jax.nn.softmax(x, axis=(0, 1))),
+        ("softmax axis=None", lambda x, w: jax.nn.softmax(x, axis=None)),
+        ("softmax where", lambda x, w: jax.nn.softmax(x, axis=1, where=w | (jnp.arange(4) == 0))),
+        ("log_softmax axis=0", lambda x, w: jax.nn.log_softmax(x, axis=0)), ("log_softmax axis=(0,1)", lambda x, w: jax.nn.log_softmax(x, axis=(0, 1))),
+        ("log_softmax axis=None", lambda x, w: jax.nn.log_softmax(x, axis=None)),
+        ("log_softmax where", lambda x, w: jax.nn.log_softmax(x, axis=1, where=w | (jnp.arange(4) == 0))),
+        ("softmax rank3 axis=1", lambda x, w: jax.nn.softmax(jnp.stack([x, x * 2.0]), axis=1)),
+        ("logsumexp axis=(0,1)", lambda x, w: jax.nn.logsumexp(x, axis=(0, 1))),
+        ("logsumexp b=", lambda x, w: jax.nn.logsumexp(x, axis=1, b=jnp.arange(1.0, 5.0))),
+        ("logsumexp where", lambda x, w: jax.nn.logsumexp(x, axis=1, where=w | (jnp.arange(4) == 0))),
+        ("logsumexp return_sign", lambda x, w: jax.nn.logsumexp(x, axis=1, b=x, return_sign=True)),
+        ("logsumexp keepdims", lambda x, w: jax.nn.logsumexp(x, axis=0, keepdims=True)),
+        ("logmeanexp axis=(0,1)", lambda x, w: jax.nn.logmeanexp(x, axis=(0, 1))),
+        ("logmeanexp where", lambda x, w: jax.nn.logmeanexp(x, axis=1, where=w | (jnp.arange(4) == 0))),
+    ])
+    reg.add("nn.standardize.epsilon", ["nn/standardize.py::epsilon"], [F(3, 4)], [
+        ("default eps", lambda x: jax.nn.standardize(x)), ("eps=0", lambda x: jax.nn.standardize(x, epsilon=0.0)),
+        ("eps=0.5", lambda x: jax.nn.standardize(x, epsilon=0.5)), ("axis=0,eps=0", lambda x: jax.nn.standardize(x, axis=0, epsilon=0.0)),
+        ("axis=(0,1),eps=0", lambda x: jax.nn.standardize(x, axis=(0, 1), epsilon=0.0)),
+        ("mean given,eps=0", lambda x: jax.nn.standardize(x, mean=jnp.float32(0.25), epsilon=0.0)),
+        ("variance given,eps=0", lambda x: jax.nn.standardize(x, variance=jnp.float32(2.0), epsilon=0.0)),
+        ("where,eps=0", lambda x: jax.nn.standardize(x, epsilon=0.0, where=x > -0.5)),
+    ])
+    reg.add("nn.activations.params", ["nn/glu.py::", "nn/one_hot.py::axis", "nn/hardmax.py::"], [F(3, 4)], [
+        ("gelu approximate", lambda x: jax.nn.gelu(x, approximate=True)), ("gelu exact", lambda x: jax.nn.gelu(x, approximate=False)),
+        ("elu alpha=0.3", lambda x: jax.nn.elu(x, alpha=0.3)), ("celu alpha=0.3", lambda x: jax.nn.celu(x, alpha=0.3)),
+        ("leaky_relu slope=0.3", lambda x: jax.nn.leaky_relu(x, negative_slope=0.3)), ("leaky_relu traced slope", lambda x: jax.nn.leaky_relu(x, negative_slope=x[0, 0])),
+        ("glu axis=-1", lambda x: jax.nn.glu(x)), ("glu axis=1", lambda x: jax.nn.glu(x, axis=1)),
+        ("glu rank3 axis=0", lambda x: jax.nn.glu(jnp.stack([x, -x]), axis=0)),
+        ("hard_tanh", lambda x: jax.nn.hard_tanh(x)), ("relu6", lambda x: jax.nn.relu6(x * 4.0)), ("softplus", lambda x: jax.nn.softplus(x)),
+        ("sparse_plus", lambda x: jax.nn.sparse_plus(x)), ("squareplus b=2", lambda x: jax.nn.squareplus(x, b=2.0)),
+        ("one_hot axis=0", lambda x: jax.nn.one_hot(jnp.asarray([0, 2, 5, -1]), 4, axis=0)[:3] * x),
+        ("one_hot axis=-1", lambda x: jax.nn.one_hot(x[:, 0].astype(jnp.int32) + 1, 4) * x),
+        ("one_hot dtype int", lambda x: jax.nn.one_hot(x.astype(jnp.int32) + 1, 3, dtype=jnp.int32, axis=1)),
+        ("log_sigmoid", lambda x: jax.nn.log_sigmoid(x)), ("mish", lambda x: jax.nn.mish(x)), ("selu", lambda x: jax.nn.selu(x)),
+        ("hard_sigmoid", lambda x: jax.nn.hard_sigmoid(x * 3.0)), ("hard_swish", lambda x: jax.nn.hard_swish(x * 3.0)),
+        ("log1mexp", lambda x: jax.nn.log1mexp(jnp.abs(x) + 0.01)),
+    ])
+    q = F(1, 4, 2, 3)
+    dpa = jax.nn.dot_product_attention
+    reg.add("nn.dot_product_attention.params", ["nn/dot_product_attention.py::unsupported", "nn/dot_product_attention.py::is_causal",
+                                                 "nn/dot_product_attention.py::q_num_heads", "nn/dot_product_attention.py::implementation"],
+            [q, F(1, 5, 2, 3), F(1, 5, 2, 3), B(1, 2, 4, 5)], [
+        ("plain", lambda q, k, v, mk: dpa(q, k, v)),
+        ("scale=0.3", lambda q, k, v, mk: dpa(q, k, v, scale=0.3)),
+        ("is_causal", lambda q, k, v, mk: dpa(q, k[:, :4], v[:, :4], is_causal=True)),
+        ("is_causal,T!=S", lambda q, k, v, mk: dpa(q, k, v, is_causal=True)),
+        ("mask", lambda q, k, v, mk: dpa(q, k, v, mask=mk | (jnp.arange(5) == 0))),
+        ("mask broadcast heads", lambda q, k, v, mk: dpa(q, k, v, mask=(mk | (jnp.arange(5) == 0))[:, :1])),
+        ("bias", lambda q, k, v, mk: dpa(q, k, v, bias=mk.astype(jnp.float32) * 2.0)),
+        ("bias+mask+causal", lambda q, k, v, mk: dpa(q, k[:, :4], v[:, :4], bias=mk[..., :4].astype(jnp.float32), mask=(mk | (jnp.arange(5) == 0))[..., :4], is_causal=True)),
+        ("seq lengths", lambda q, k, v, mk: dpa(q, k, v, query_seq_lengths=jnp.asarray([3]), key_value_seq_lengths=jnp.asarray([2]))),
+        ("kv lengths only", lambda q, k, v, mk: dpa(q, k, v, key_value_seq_lengths=jnp.asarray([4]))),
+        ("local_window_size=1", lambda q, k, v, mk: dpa(q, k[:, :4], v[:, :4], local_window_size=1)),
+        ("local_window_size=(1,0)", lambda q, k, v, mk: dpa(q, k[:, :4], v[:, :4], local_window_size=(1, 0))),
+        ("GQA 2:1", lambda q, k, v, mk: dpa(q, k[:, :, :1], v[:, :, :1])),
+        ("rank3 TNH", lambda q, k, v, mk: dpa(q[0], k[0], v[0])),
+        ("implementation=xla", lambda q, k, v, mk: dpa(q, k, v, implementation="xla")),
+        ("return_residual", lambda q, k, v, mk: dpa(q, k, v, return_residual=True)),
+    ])
+    img = F(1, 4, 6, 2)
+    rz = jax.image.resize
+    reg.add("image.resize.params", ["image/resize.py::antialias", "image/resize.py::method", "image/resize.py::precision", "image/resize.py::area"], [img], [
+        (f"{meth},up", (lambda meth: lambda x: rz(x, (1, 8, 9, 2), meth))(meth)) for meth in ("nearest", "linear", "bilinear", "cubic", "bicubic", "lanczos3", "lanczos5")] + [
+        (f"{meth},down,antialias={aa}", (lambda meth, aa: lambda x: rz(x, (1, 2, 4, 2), meth, antialias=aa))(meth, aa)) for meth in ("nearest", "linear", "cubic", "lanczos3") for aa in (True, False)] + [
+        ("linear,mixed up/down,antialias", lambda x: rz(x, (1, 8, 3, 2), "linear")),
+        ("linear,precision=HIGHEST", lambda x: rz(x, (1, 8, 9, 2), "linear", precision=lax.Precision.HIGHEST)),
+        ("linear,batch+channel resized", lambda x: rz(x, (2, 4, 6, 3), "linear")),
+        ("nearest,rank2", lambda x: rz(x[0, :, :, 0], (7, 5), "nearest")),
+        ("scale_and_translate", lambda x: jax.image.scale_and_translate(x, (1, 8, 9, 2), (1, 2), jnp.asarray([2.0, 1.5]), jnp.asarray([0.5, -0.25]), "linear")),
+    ])
+
+
+# ------------------------------------------------------------------------------------------------ programs: misc lax guards, linalg params, converter options
+def _progs_f_misc(reg):
+    half = C(np.asarray([-2.5, -1.5, -0.5, 0.5, 1.5, 2.5, 0.49999997, 3.5001], np.float32), np.asarray([-3.5, 4.5, -0.0, 0.0, 6.5, -7.5, 1e-8, -1.4999], np.float32))
+    reg.add("round.method", ["lax/round.py::"], [half], [
+        ("away_from_zero", lambda x: lax.round(x)), ("to_nearest_even", lambda x: lax.round(x, lax.RoundingMethod.TO_NEAREST_EVEN)),
+        ("jnp.round", lambda x: jnp.round(x)), ("jnp.round decimals=1", lambda x: jnp.round(x * 0.37, 1)), ("jnp.rint", lambda x: jnp.rint(x)),
+        ("jnp.trunc", lambda x: jnp.trunc(x)), ("floor/ceil", lambda x: (jnp.floor(x), jnp.ceil(x))),
+        ("astype int32 (truncation)", lambda x: x.astype(jnp.int32)),
+    ])
+    reg.add("rev_iota_select.params", ["lax/rev.py::Axis", "lax/iota.py::dimension", "lax/iota.py::dtype", "lax/select_n.py::", "lax/split.py::", "lax/squeeze.py::"],
+            [F(3, 1, 4), C(*[np.asarray(v, np.int32) for v in ([[0, 2, 1, 0]] * 3, [[2, 2, 0, 1]] * 3)])], [
+        ("rev (0,)", lambda x, s: lax.rev(x, (0,))), ("rev (0,2)", lambda x, s: lax.rev(x, (0, 2))), ("rev ()", lambda x, s: lax.rev(x, ())),
+        ("jnp.flip axis=None", lambda x, s: jnp.flip(x)), ("jnp.flip axis=-1", lambda x, s: jnp.flip(x, axis=-1)), ("x[::-1,:,::-2]", lambda x, s: x[::-1, :, ::-2]),
+        ("iota dim0", lambda x, s: lax.broadcasted_iota(jnp.int32, (3, 4), 0) + s), ("iota dim1", lambda x, s: lax.broadcasted_iota(jnp.int32, (3, 4), 1) + s),
+        ("iota float", lambda x, s: lax.broadcasted_iota(jnp.float32, (3, 1, 4), 2) * x), ("iota int8", lambda x, s: lax.iota(jnp.int8, 4).astype(jnp.int32) + s),
+        ("iota uint8", lambda x, s: lax.iota(jnp.uint8, 4).astype(jnp.int32) + s),
+        ("select_n bool", lambda x, s: lax.select_n(s > 0, x[:, 0], -x[:, 0])),
+        ("select_n int 3 cases", lambda x, s: lax.select_n(s, x[:, 0], -x[:, 0], x[:, 0] * 2.0)),
+        ("select_n int 2 cases", lambda x, s: lax.select_n(jnp.minimum(s, 1), x[:, 0], -x[:, 0])),
+        ("select_n scalar pred", lambda x, s: lax.select_n(s[0, 0] > 0, x, -x)),
+        ("split sizes", lambda x, s: lax.split(x, (1, 3), axis=2)), ("split axis0", lambda x, s: lax.split(x, (2, 1), axis=0)),
+        ("jnp.split indices", lambda x, s: jnp.split(x, [1, 2], axis=2)), ("jnp.array_split uneven", lambda x, s: jnp.array_split(x, 3, axis=2)),
+        ("squeeze (1,)", lambda x, s: lax.squeeze(x, (1,))), ("squeeze (-2,)", lambda x, s: lax.squeeze(x, (-2,))), ("jnp.squeeze None", lambda x, s: jnp.squeeze(x[:1])),
+        ("expand_dims (0,-1)", lambda x, s: jnp.expand_dims(x, (0, -1))),
+        ("transpose (2,0,1)", lambda x, s: lax.transpose(x, (2, 0, 1))), ("moveaxis", lambda x, s: jnp.moveaxis(x, 0, -1)), ("swapaxes", lambda x, s: jnp.swapaxes(x, 0, 2)),
+        ("roll", lambda x, s: jnp.roll(x, 2, axis=2)), ("roll neg,2 axes", lambda x, s: jnp.roll(x, (-1, 1), axis=(0, 2))), ("roll traced shift", lambda x, s: jnp.roll(x, s[0, 1], axis=2)),
+        ("tile", lambda x, s: jnp.tile(x, (2, 1, 2))), ("repeat axis", lambda x, s: jnp.repeat(x, 2, axis=2)), ("repeat per-element", lambda x, s: jnp.repeat(x, np.asarray([1, 0, 2, 1]), axis=2)),
+        ("repeat traced,total_repeat_length", lambda x, s: jnp.repeat(x[0, 0], s[0], total_repeat_length=5)),
+        ("concatenate dtype mix", lambda x, s: jnp.concatenate([x[:, 0], s], axis=0)), ("stack axis=-1", lambda x, s: jnp.stack([x[:, 0], -x[:, 0]], axis=-1)),
+        ("broadcast_in_dim (1,)", lambda x, s: lax.broadcast_in_dim(x[0, 0], (4, 4), (1,))), ("broadcast_in_dim (0,)", lambda x, s: lax.broadcast_in_dim(x[0, 0], (4, 4), (0,))),
+    ])
+    reg.add("clamp_pow_intops.params", ["lax/clamp.py::", "lax/integer_pow.py::", "lax/pow.py::"], [F(3, 4), I((3, 4), -7, 8)], [
+        ("clamp min>max", lambda x, n: lax.clamp(0.5, x, -0.5)), ("clamp tensor bounds", lambda x, n: lax.clamp(x * 0.5 - 0.2, x, x * 0.5 + 0.2)),
+        ("clamp int", lambda x, n: lax.clamp(-2, n, 3)), ("jnp.clip min only", lambda x, n: jnp.clip(x, min=0.1)), ("jnp.clip max only", lambda x, n: jnp.clip(n, max=2)),
+        ("integer_pow 3", lambda x, n: lax.integer_pow(x, 3)), ("integer_pow -2", lambda x, n: lax.integer_pow(x + 3.0, -2)), ("integer_pow 0", lambda x, n: lax.integer_pow(x, 0)),
+        ("integer_pow int 3", lambda x, n: lax.integer_pow(n, 3)), ("pow float**int", lambda x, n: lax.pow(jnp.abs(x) + 0.5, n % 3)),
+        ("jnp.power neg base", lambda x, n: jnp.power(x, 2.0)), ("div int (trunc)", lambda x, n: lax.div(n, jnp.int32(3))), ("rem int (sign)", lambda x, n: lax.rem(n, jnp.int32(3))),
+        ("floor_divide int", lambda x, n: n // 3), ("mod int", lambda x, n: n % 3), ("mod float", lambda x, n: x % 0.7), ("fmod float", lambda x, n: jnp.fmod(x, 0.7)),
+        ("divmod neg divisor", lambda x, n: jnp.divmod(n, -3)), ("remainder float neg", lambda x, n: jnp.remainder(x, -0.7)),
+        ("sign int", lambda x, n: lax.sign(n)), ("abs int", lambda x, n: lax.abs(n)), ("neg int", lambda x, n: -n), ("max int/float", lambda x, n: jnp.maximum(x, n)),
+        ("nextafter", lambda x, n: lax.nextafter(x, x + 1.0)), ("reduce_precision 5,10", lambda x, n: lax.reduce_precision(x * 1.2345678, 5, 10)),
+        ("reduce_precision 8,7", lambda x, n: lax.reduce_precision(x * 1.2345678, 8, 7)), ("reduce_precision 8,23", lambda x, n: lax.reduce_precision(x * 1.2345678, 8, 23)),
+        ("reduce_precision 3,2", lambda x, n: lax.reduce_precision(x * 1.2345678, 3, 2)),
+    ])
+    reg.add("bitops.dtypes", ["lax/clz.py::", "lax/population_count.py::", "lax/shift_right_arithmetic.py::", "numpy/left_shift.py::", "numpy/right_shift.py::"],
+            [I((8,), -300, 300), C(np.asarray([0, 1, 2, 5, 31, 32, 33, 7], np.int32), np.asarray([3, 3, 0, 8, 16, 30, 40, 1], np.int32))], [
+        ("clz int32", lambda n, k: lax.clz(n)), ("clz uint8", lambda n, k: lax.clz(n.astype(jnp.uint8)).astype(jnp.int32)), ("clz int16", lambda n, k: lax.clz(n.astype(jnp.int16)).astype(jnp.int32)),
+        ("popcount int32", lambda n, k: lax.population_count(n)), ("popcount uint8", lambda n, k: lax.population_count(n.astype(jnp.uint8)).astype(jnp.int32)),
+        ("popcount int8", lambda n, k: lax.population_count(n.astype(jnp.int8)).astype(jnp.int32)),
+        ("shl int32", lambda n, k: lax.shift_left(n, k % 31)), ("shl int32,big shift", lambda n, k: lax.shift_left(n, k)),
+        ("shr logical int32", lambda n, k: lax.shift_right_logical(n, k % 31)), ("shr arithmetic int32", lambda n, k: lax.shift_right_arithmetic(n, k % 31)),
+        ("shr arithmetic,big shift", lambda n, k: lax.shift_right_arithmetic(n, k)), ("shr logical uint32", lambda n, k: lax.shift_right_logical(n.astype(jnp.uint32), (k % 31).astype(jnp.uint32)).astype(jnp.int32)),
+        ("shl uint8", lambda n, k: lax.shift_left(n.astype(jnp.uint8), (k % 8).astype(jnp.uint8)).astype(jnp.int32)),
+        ("jnp.left_shift", lambda n, k: jnp.left_shift(n, k % 31)), ("jnp.right_shift neg", lambda n, k: jnp.right_shift(n, k % 31)),
+        ("jnp.right_shift uint8", lambda n, k: jnp.right_shift(n.astype(jnp.uint8), (k % 8).astype(jnp.uint8)).astype(jnp.int32)),
+        ("bitwise_not int", lambda n, k: ~n), ("bitwise_not bool", lambda n, k: ~(n > 0)), ("and/or/xor int", lambda n, k: ((n & k), (n | k), (n ^ k))),
+        ("bitcast f32->i32", lambda n, k: lax.bitcast_convert_type(n.astype(jnp.float32), jnp.int32)),
+    ])
+    spd = C(np.asarray([[4.0, 1.0, 0.5], [1.0, 3.0, -0.25], [0.5, -0.25, 2.0]], np.float32), np.asarray([[2.0, -0.5, 0.1], [-0.5, 2.5, 0.3], [0.1, 0.3, 1.5]], np.float32))
+    ts = jax.lax.linalg.triangular_solve
+    vs = []
+    for left in (True, False):
+        for lower in (True, False):
+            for tr in (False, True):
+                vs.append((f"left={left},lower={lower},transpose={tr}", (lambda left, lower, tr: lambda a, b: ts(a, b if left else b.T, left_side=left, lower=lower, transpose_a=tr))(left, lower, tr)))
+    vs += [("unit_diagonal", lambda a, b: ts(a, b, left_side=True, lower=True, unit_diagonal=True)),
+           ("conjugate_a", lambda a, b: ts(a, b, left_side=True, lower=True, conjugate_a=True)),
+           ("batched a", lambda a, b: ts(jnp.stack([a, a * 2.0]), jnp.stack([b, -b]), left_side=True, lower=False)),
+           ("cholesky", lambda a, b: jnp.linalg.cholesky(a)), ("cholesky upper", lambda a, b: jnp.linalg.cholesky(a, upper=True)),
+           ("lax cholesky symmetrize=False", lambda a, b: jax.lax.linalg.cholesky(a, symmetrize_input=False)),
+           ("cholesky batched", lambda a, b: jnp.linalg.cholesky(jnp.stack([a, a * 2.0]))),
+           ("solve 3x3", lambda a, b: jnp.linalg.solve(a, b)), ("inv 3x3", lambda a, b: jnp.linalg.inv(a)),
+           ("solve 2x2", lambda a, b: jnp.linalg.solve(a[:2, :2], b[:2])), ("inv 2x2", lambda a, b: jnp.linalg.inv(a[:2, :2])), ("inv batched 2x2", lambda a, b: jnp.linalg.inv(jnp.stack([a[:2, :2], a[1:, 1:]]))),
+           ("det 3x3", lambda a, b: jnp.linalg.det(a)), ("det 2x2", lambda a, b: jnp.linalg.det(a[:2, :2])),
+           ("eigh 2x2 values", lambda a, b: jnp.linalg.eigvalsh(a[:2, :2])), ("eigh 3x3 values", lambda a, b: jnp.linalg.eigvalsh(a)),
+           ("qr 3x2 r", lambda a, b: jnp.abs(jnp.linalg.qr(a[:, :2], mode="r"))), ("svd values 3x2", lambda a, b: jnp.linalg.svd(a[:, :2], compute_uv=False)),
+           ("norm fro", lambda a, b: jnp.linalg.norm(a)), ("norm ord=1", lambda a, b: jnp.linalg.norm(a, ord=1)), ("norm ord=inf,axis=1", lambda a, b: jnp.linalg.norm(a, ord=np.inf, axis=1)),
+           ("norm ord=2 vec,axis=0", lambda a, b: jnp.linalg.norm(a, ord=2, axis=0)), ("norm ord=3,axis=1,keepdims", lambda a, b: jnp.linalg.norm(a, ord=3, axis=1, keepdims=True)),
+           ("norm rank3 ord=1 axis=(1,2)", lambda a, b: jnp.linalg.norm(jnp.stack([a, -a * 2.0]), ord=1, axis=(1, 2))),
+           ("norm rank3 ord=2 axis=2", lambda a, b: jnp.linalg.norm(jnp.stack([a, -a * 2.0]), ord=2, axis=2)),
+           ("roots deg2", lambda a, b: jnp.abs(jnp.roots(jnp.asarray([1.0, -3.0, 2.0]) * a[0, 0], strip_zeros=False))),
+           ("polyfit deg1", lambda a, b: jnp.polyfit(jnp.arange(3.0), b[:, 0], 1)), ("polyfit deg2", lambda a, b: jnp.polyfit(jnp.arange(3.0), b[:, 0], 2)),
+           ("polyfit deg1 weights", lambda a, b: jnp.polyfit(jnp.arange(3.0), b[:, 0], 1, w=jnp.asarray([1.0, 2.0, 3.0]))),
+           ("polyval", lambda a, b: jnp.polyval(a[0], b)), ("tridiagonal_solve", lambda a, b: jax.lax.linalg.tridiagonal_solve(jnp.asarray([0.0, 1.0, 0.5]), jnp.diag(a), jnp.asarray([0.3, -0.2, 0.0]), b)),
+           ]
+    reg.add("linalg.params", ["lax/triangular_solve.py::conjugate_a", "lax/cholesky.py::", "numpy/linalg_inv.py::rows not in", "numpy/linalg_solve.py::rows not in",
+                              "numpy/linalg_norm.py::", "numpy/polyfit.py::", "numpy/roots.py::", "lax/eigh.py::n_rows > 2", "lax/qr.py::", "lax/svd.py::"], [spd, F(3, 2)], vs)
+    # ---- converter options: layout flags on both sides of the rank / range guards
+    nchw = [("rank4 in", lambda x, y: (x * 2.0 + 1.0, y), None, {"inputs_as_nchw": [0]}),
+            ("rank4 in+out", lambda x, y: (x * 2.0 + 1.0, y), None, {"inputs_as_nchw": [0], "outputs_as_nchw": [0]}),
+            ("rank4 out only,second unused layout", lambda x, y: (jnp.cumsum(x, axis=3), y * 2.0), None, {"outputs_as_nchw": [0]}),
+            ("rank2 input flagged", lambda x, y: (x * 2.0, y + 1.0), None, {"inputs_as_nchw": [1]}),
+            ("rank2 output flagged", lambda x, y: (x * 2.0, y + 1.0), None, {"outputs_as_nchw": [1]}),
+            ("index out of range", lambda x, y: (x * 2.0, y + 1.0), None, {"inputs_as_nchw": [2]}),
+            ("negative index", lambda x, y: (x * 2.0, y + 1.0), None, {"inputs_as_nchw": [-2]}),
+            ("duplicate index", lambda x, y: (x * 2.0, y + 1.0), None, {"inputs_as_nchw": [0, 0]}),
+            ("bool index", lambda x, y: (x * 2.0, y + 1.0), None, {"inputs_as_nchw": [True]}),
+            ("same value twice as output", lambda x, y: (x, x, y), None, {"outputs_as_nchw": [1]}),
+            ("input returned directly", lambda x, y: (x, y), None, {"inputs_as_nchw": [0]}),
+            ("input returned directly,in+out", lambda x, y: (x, y), None, {"inputs_as_nchw": [0], "outputs_as_nchw": [0]}),
+            ("reduce over channel", lambda x, y: (jnp.argmax(x, axis=3), y), None, {"inputs_as_nchw": [0]}),
+            ("opset=13", lambda x, y: (jnp.sum(x, axis=1) + lax.cumsum(x, axis=1)[:, 0], y), None, {"opset": 13}),
+            ("opset=11", lambda x, y: (jnp.sum(x, axis=1) + jnp.clip(x, 0.0, 1.0)[:, 0], y), None, {"opset": 11}),
+            ("double precision", lambda x, y: (x * 2.0 + jnp.float32(1e-9), y), None, {"enable_double_precision": True}),
+            ]
+    reg.add("converter.layout_options", ["converter/conversion_api.py::_validate_layout_indices", "converter/conversion_api.py::_require_4d"],
+            [F(1, 3, 4, 2), F(2, 3)], nchw, place=False)
